@@ -4785,7 +4785,7 @@ class QNTSimplifyMacro(Macro):
             raise VeriTException("qnt_simplify", "unexpected arguments")
         goal = args[0]
         lhs, rhs = goal.args
-        if any(v.get_type() == BoolType for v in rhs.get_vars()):
+        if rhs not in (true, false):
             raise VeriTException("qnf_simplify", "rhs should be true or false")
 
         if not lhs.is_forall() and not lhs.is_exists():
